@@ -125,3 +125,14 @@ CHECKS["C18"] = hist_check("C18",
     [R("rel", 6000, 100000, 2.0), R("dbg", 2000, 30000, 1.0)],
     assumptions=["purge by reset (purge_decommits=0) is only promised for fully committed ranges: those cases set eager commit options so the expectation is what the code documents",
                  "only the presence/absence of purge calls per freed region is asserted, not the amount purged nor that a purge does not come early"])
+
+CHECKS["C07"] = hist_check("C07",
+    "cases = workload x option setting x fault position: 6 workload shapes (small churn, filled pages, huge + aligned-huge, heaps new/delete/destroy, helper threads that exit, "
+    "arena-bound heap) x {default; lazy commit everywhere; purge_delay=0; disallow_arena_alloc; arena_reserve=64 MiB}; each workload is first run fault-free to count its OS "
+    "calls per kind (mmap, munmap, commit-mprotect, protect-mprotect, purge-madvise) up to the recovery point, then EVERY position k below that count (dense up to 40/200, "
+    "strided beyond) x {fail once, fail from k on} is one case in a fresh process. Oracle: no crash/assert; every API call returns NULL or a block that passes the C01 checks "
+    "(a refused commit really leaves PROT_NONE, so handing it out faults); live blocks keep their contents; after the shim grants requests again a fixed recovery workload over "
+    "all size classes, a new heap and a fresh thread must succeed completely; after free-all + forced collect the heap reports no used block and no non-arena region remains "
+    "mapped (minus regions whose munmap the shim refused). Non-trivial = the armed fault was hit and at least one API call returned NULL because of it. Distinct = hash of the IR text.",
+    [R("rel", 1600000, 12000000, 2.0), R("sec", 800000, 6000000, 1.0)], level="fault_enumeration",
+    assumptions=["debug build not used: mi_os_decommit_ex asserts that the OS call cannot fail (debug-only statement)", "faults are injected at the libc call boundary of src/prim/unix/prim.c (mmap/munmap/mprotect/madvise)"])
